@@ -11,7 +11,9 @@ use crate::codec::aead::CipherMethod;
 pub fn new_encoder(kind: CipherKind, key: &[u8], salt: &[u8]) -> Result<ChunkEncoder, InvalidLength> {
     let key = hkdfsha1(key, salt)?;
     let auth = new_auth(kind, &key);
-    Ok(ChunkEncoder::new(0xffff, auth))
+    // SIP004: the payload length of a chunk is capped at 0x3FFF
+    let payload_limit = 0x3fff + auth.method.tag_size() + auth.size_bytes();
+    Ok(ChunkEncoder::new(payload_limit, auth))
 }
 
 pub fn new_decoder(kind: CipherKind, key: &[u8], salt: &[u8]) -> Result<ChunkDecoder, InvalidLength> {
